@@ -186,8 +186,40 @@ def snapshot(p):
     return ("v", repr(p))
 
 
+_HISTORY_DONE = False
+
+
+def raising_history(n=160):
+    """A prelude of optimize() calls that RAISE and are caught by the caller (a function atom that rejects the constant of
+    `fn & eq`, bounds of incomparable types): afterwards the optimizer must behave as in a fresh process -- nothing may be
+    left behind by an exception (a depth counter, a half-filled cache, a lock)."""
+    global _HISTORY_DONE
+    if _HISTORY_DONE:
+        return 0
+    _HISTORY_DONE = True
+    from predicate import eq_p, fn_p, ge_p, le_p, lt_p
+    from predicate.predicate import AndPredicate, NotPredicate, OrPredicate
+
+    raised = 0
+    makers = [
+        lambda k: AndPredicate(fn_p(str.isalpha), eq_p(k)),                       # str.isalpha(3) -> TypeError inside the fn & eq arm
+        lambda k: AndPredicate(ge_p("a"), le_p(k)),                               # "a" < 1 -> TypeError inside the range arm
+        lambda k: OrPredicate(NotPredicate(AndPredicate(ge_p("a"), lt_p(k))), eq_p(k)),
+        lambda k: AndPredicate(AndPredicate(fn_p(len), eq_p(k)), ge_p(k)),
+    ]
+    for k in range(n):
+        try:
+            _watchdog(lambda: optimize(makers[k % len(makers)](k)), ("tt",))
+        except HarnessError:
+            raise
+        except Exception:  # noqa: BLE001
+            raised += 1
+    return raised
+
+
 def detect_cfg():
     """Which variant of each quirk arm does /repo follow today?  (DESIGN.md §5.3)"""
+    raising_history()
     cfg = {}
     detail = {}
     for q in QUIRKS:
